@@ -11,7 +11,8 @@ Inductive index := IxC (n : nat) | IxV (v : nat).
    measurement, RegFuture of a loop_body / loop_until register *)
 Inductive cval := VInt (z : Z) | VFut (a : nat) (ix : index) | VReg (r : nat) | VLoop (v : nat).
 (* second operand of add: int, Future, loop register *)
-Inductive addsrc := AInt (z : Z) | AFut (a : nat) (ix : index) | ALoop (v : nat).
+Inductive addsrc := AInt (z : Z) | AFut (a : nat) (ix : index) | ALoop (v : nat)
+  | AReg (r : nat).      (* a register future: fut.add(rf) / rf.add(rf') *)
 Inductive gate1 := GX | GY | GZ | GH | GK | GS | GT.
 Inductive axis := AX | AY | AZ.
 Inductive gate2 := TCnot | TCphase.
